@@ -964,7 +964,7 @@ theorem doSetClsCore_effect (w : World) (k : ClsId) (x : Name) (lit : Lit) :
       ClsEffect.setOwn (ClsEffect.of_cells (by simp))
         (fun c hc => Or.inl (resolve_held hr c (hpc ▸ hc)))
     cases hval : validate (({ w with cells := w.cells ++ extra }).setOwn k x p).cells p v with
-    | error e => exact e1
+    | error e => exact ClsEffect.of_cells (by simp)
     | ok cells2 =>
       obtain ⟨hl, _⟩ := validate_spec hval
       simp only
